@@ -12,22 +12,26 @@ import (
 	"strings"
 
 	"github.com/go-logr/logr"
-	metav1 "k8s.io/apimachinery/pkg/apis/meta/v1"
 	"k8s.io/apimachinery/pkg/apis/meta/v1/unstructured"
 	"k8s.io/apimachinery/pkg/runtime"
 	"k8s.io/apimachinery/pkg/types"
+	"k8s.io/apimachinery/pkg/util/validation/field"
 	ctrl "sigs.k8s.io/controller-runtime"
 
 	corev1alpha1 "package-operator.run/apis/core/v1alpha1"
 	"package-operator.run/internal/adapters"
 	"package-operator.run/internal/apis/manifests"
 	pkgcontroller "package-operator.run/internal/controllers/packages"
+	"package-operator.run/internal/imageprefix"
 	"package-operator.run/internal/packages"
 )
 
-// package mode (C16): the real GenericPackageController (wired like NewPackageController: real
-// unpack reconciler, real PackageDeployer with the real deployment reconciler, real status
-// reconciler) runs against the recording API server with a scripted image puller.
+// package mode (C16): the real GenericPackageController, built by the real constructor
+// NewPackageController or NewClusterPackageController (scenario field "cluster") with the recording
+// API server as client and uncached client and a scripted image puller, so the wiring of the unpack
+// reconciler, the PackageDeployer, the deployment reconciler and the status reconciler is the
+// production one.  The only intervention is VerifWrapDeployer, which wraps the deployer the
+// constructor wired in with a recorder of Deploy entries.
 // A scenario is an initial Package plus steps: edit the spec, arm an API fault for request #n of
 // the next pass, arm a concurrent writer (a third party that updates the ObjectDeployment's metadata,
 // hence its resourceVersion, right before request #n of the next pass takes effect), run one Reconcile.  Per pass the harness reports, in order, the pulls, the entries
@@ -36,7 +40,8 @@ import (
 // render of the Package's current spec through the real loader / admission / renderer
 // (renderOnce of mode_render.go, which does not evaluate constraints).
 type pkgScenario struct {
-	Images map[string]struct {
+	Cluster bool `json:"cluster"` // ClusterPackage / ClusterObjectDeployment flavour
+	Images  map[string]struct {
 		Files map[string]string `json:"files"`
 	} `json:"images"`
 	Environment json.RawMessage `json:"environment"` // manifests.PackageEnvironment
@@ -148,9 +153,50 @@ func (p *scriptedPuller) Pull(_ context.Context, image string) (*packages.RawPac
 }
 
 type recordingDeployer struct {
-	real  *packages.PackageDeployer
+	real  pkgcontroller.VerifPackageDeployer
 	store *Store
 	marks *[]pkgMark
+}
+
+// pkgFlavour hides the difference between Package and ClusterPackage from the harness.
+type pkgFlavour struct{ cluster bool }
+
+func (f pkgFlavour) pkgKind() string {
+	if f.cluster {
+		return "ClusterPackage"
+	}
+	return "Package"
+}
+
+func (f pkgFlavour) odKind() string {
+	if f.cluster {
+		return "ClusterObjectDeployment"
+	}
+	return "ObjectDeployment"
+}
+
+func (f pkgFlavour) newPkg(scheme *runtime.Scheme) adapters.GenericPackageAccessor {
+	if f.cluster {
+		return adapters.NewGenericClusterPackage(scheme)
+	}
+	return adapters.NewGenericPackage(scheme)
+}
+
+func (f pkgFlavour) newOD(scheme *runtime.Scheme) adapters.ObjectDeploymentAccessor {
+	if f.cluster {
+		return adapters.NewClusterObjectDeployment(scheme)
+	}
+	return adapters.NewObjectDeployment(scheme)
+}
+
+func pkgParts(a adapters.GenericPackageAccessor) (*corev1alpha1.PackageSpec, *corev1alpha1.PackageStatus) {
+	switch o := a.ClientObject().(type) {
+	case *corev1alpha1.Package:
+		return &o.Spec, &o.Status
+	case *corev1alpha1.ClusterPackage:
+		return &o.Spec, &o.Status
+	}
+	panic("unknown package type")
 }
 
 func (d *recordingDeployer) Deploy(
@@ -208,12 +254,66 @@ func canonicalSum(v any) (string, error) {
 	return hex.EncodeToString(sum[:]), nil
 }
 
-func (sp pkgSpec) apply(p *corev1alpha1.Package) {
-	p.Spec.Image, p.Spec.Component, p.Spec.Paused = sp.Image, sp.Component, sp.Paused
-	p.Spec.Config = nil
+func (sp pkgSpec) apply(spec *corev1alpha1.PackageSpec) {
+	spec.Image, spec.Component, spec.Paused = sp.Image, sp.Component, sp.Paused
+	spec.Config = nil
 	if len(sp.Config) > 0 && string(sp.Config) != "null" {
-		p.Spec.Config = &runtime.RawExtension{Raw: append([]byte{}, sp.Config...)}
+		spec.Config = &runtime.RawExtension{Raw: append([]byte{}, sp.Config...)}
 	}
+}
+
+// refRender is the reference render of a spec: the stage sequence of PackageDeployer.Deploy without
+// constraints and without API (as renderOnce of mode_render.go), with the package validators of the
+// flavour's deployer.
+func refRender(ctx context.Context, sc *renderScenario, cluster bool) renderGroup {
+	if !cluster {
+		return renderOnce(ctx, sc)
+	}
+	fail := func(err error) renderGroup { return renderGroup{Err: renderErrClass(err)} }
+	apiPkg := sc.apiPackage()
+	env, err := sc.env()
+	if err != nil {
+		return renderGroup{Err: "scenario-environment"}
+	}
+	pkg, err := packages.DefaultStructuralLoader.LoadComponent(ctx, &packages.RawPackage{Files: freshFiles(sc.Files)}, apiPkg.GetComponent())
+	if err != nil {
+		return fail(err)
+	}
+	tmplCtx := apiPkg.TemplateContext()
+	configuration := map[string]any{}
+	if tmplCtx.Config != nil {
+		if err := json.Unmarshal(tmplCtx.Config.Raw, &configuration); err != nil {
+			return fail(fmt.Errorf("unmarshal config: %w", err))
+		}
+	}
+	verrs, err := packages.AdmitPackageConfiguration(ctx, configuration, pkg.Manifest, field.NewPath("spec", "config"))
+	if err != nil {
+		return renderGroup{Err: "config-admission"}
+	}
+	if len(verrs) > 0 {
+		return renderGroup{Err: "config-invalid"}
+	}
+	images := map[string]string{}
+	if pkg.ManifestLock != nil {
+		for _, pi := range pkg.ManifestLock.Spec.Images {
+			resolved, err := packages.VerifImageWithDigest(imageprefix.Replace(pi.Image, nil), pi.Digest)
+			if err != nil {
+				return renderGroup{Err: "image-reference"}
+			}
+			images[pi.Name] = resolved
+		}
+	}
+	inst, err := packages.RenderPackageInstance(ctx, pkg, packages.PackageRenderContext{
+		Package: tmplCtx.Package, Config: configuration, Images: images, Environment: env,
+	}, packages.VerifClusterPackageValidators(), packages.DefaultObjectValidators)
+	if err != nil {
+		return fail(err)
+	}
+	deploy := adapters.NewClusterObjectDeployment(renderScheme)
+	deploy.SetTemplateSpec(packages.RenderObjectSetTemplateSpec(inst))
+	g := renderGroup{}
+	fillOutput(&g, deploy)
+	return g
 }
 
 func init() {
@@ -232,30 +332,49 @@ func init() {
 				return nil, err
 			}
 		}
+		fl := pkgFlavour{cluster: sc.Cluster}
+		if fl.cluster {
+			sc.Package.Namespace = ""
+		}
 		for _, o := range sc.Others {
-			other := &corev1alpha1.Package{ObjectMeta: metav1.ObjectMeta{Name: o.Name, Namespace: o.Namespace, Labels: o.Labels}}
-			other.Spec.Image = "other"
-			if err := store.Create(ctx, other); err != nil {
+			other := fl.newPkg(scheme)
+			obj := other.ClientObject()
+			obj.SetName(o.Name)
+			obj.SetLabels(o.Labels)
+			if !fl.cluster {
+				obj.SetNamespace(o.Namespace)
+			}
+			ospec, _ := pkgParts(other)
+			ospec.Image = "other"
+			if err := store.Create(ctx, obj); err != nil {
 				return nil, err
 			}
 		}
-		pkg := &corev1alpha1.Package{ObjectMeta: metav1.ObjectMeta{
-			Name: sc.Package.Name, Namespace: sc.Package.Namespace, Labels: sc.Package.Labels,
-		}}
-		sc.Package.pkgSpec.apply(pkg)
-		if err := store.Create(ctx, pkg); err != nil {
+		pkg := fl.newPkg(scheme)
+		pkg.ClientObject().SetName(sc.Package.Name)
+		pkg.ClientObject().SetNamespace(sc.Package.Namespace)
+		pkg.ClientObject().SetLabels(sc.Package.Labels)
+		pspec, _ := pkgParts(pkg)
+		sc.Package.pkgSpec.apply(pspec)
+		if err := store.Create(ctx, pkg.ClientObject()); err != nil {
 			return nil, err
 		}
 		key := types.NamespacedName{Name: sc.Package.Name, Namespace: sc.Package.Namespace}
-		pkgKey := storeKey{corev1alpha1.GroupVersion.Group, "Package", key.Namespace, key.Name}
-		odKey := storeKey{corev1alpha1.GroupVersion.Group, "ObjectDeployment", key.Namespace, key.Name}
+		pkgKey := storeKey{corev1alpha1.GroupVersion.Group, fl.pkgKind(), key.Namespace, key.Name}
+		odKey := storeKey{corev1alpha1.GroupVersion.Group, fl.odKind(), key.Namespace, key.Name}
 
 		marks := []pkgMark{}
 		puller := &scriptedPuller{sc: &sc, store: store, marks: &marks, perImg: map[string]int{}}
-		deployer := &recordingDeployer{
-			real: packages.NewPackageDeployer(store, store, scheme, nil), store: store, marks: &marks,
+		// the real constructors, as cmd/package-operator-manager/components/package.go calls them
+		var c *pkgcontroller.GenericPackageController
+		if fl.cluster {
+			c = pkgcontroller.NewClusterPackageController(store, store, logr.Discard(), scheme, puller, nil, nil, nil)
+		} else {
+			c = pkgcontroller.NewPackageController(store, store, logr.Discard(), scheme, puller, nil, nil, nil)
 		}
-		c := pkgcontroller.VerifNewPackageController(store, store, logr.Discard(), scheme, puller, deployer)
+		pkgcontroller.VerifWrapDeployer(c, func(real pkgcontroller.VerifPackageDeployer) pkgcontroller.VerifPackageDeployer {
+			return &recordingDeployer{real: real, store: store, marks: &marks}
+		})
 		c.SetEnvironment(&env)
 
 		obs := pkgObs{Passes: []pkgPass{}}
@@ -265,12 +384,13 @@ func init() {
 		for i, st := range sc.Steps {
 			switch st.Op {
 			case "edit":
-				cur := &corev1alpha1.Package{}
-				if err := store.Get(ctx, key, cur); err != nil {
+				cur := fl.newPkg(scheme)
+				if err := store.Get(ctx, key, cur.ClientObject()); err != nil {
 					return nil, err
 				}
-				st.pkgSpec.apply(cur)
-				if err := store.Update(ctx, cur); err != nil {
+				cspec, _ := pkgParts(cur)
+				st.pkgSpec.apply(cspec)
+				if err := store.Update(ctx, cur.ClientObject()); err != nil {
 					return nil, err
 				}
 			case "fault":
@@ -281,14 +401,15 @@ func init() {
 			case "touch":
 				touches[st.N] = true
 			case "pass":
-				cur := &adapters.GenericPackage{}
-				if err := store.Get(ctx, key, &cur.Package); err != nil {
+				cur := fl.newPkg(scheme)
+				if err := store.Get(ctx, key, cur.ClientObject()); err != nil {
 					return nil, err
 				}
-				p := pkgPass{Step: i, SpecHash: cur.GetSpecHash(nil), Gen: cur.Generation, Events: []pkgEvent{}, Conds: []pkgCond{}}
-				p.Spec = pkgSpec{Image: cur.Spec.Image, Component: cur.Spec.Component, Paused: cur.Spec.Paused}
-				if cur.Spec.Config != nil {
-					p.Spec.Config = append(json.RawMessage{}, cur.Spec.Config.Raw...)
+				curSpec, _ := pkgParts(cur)
+				p := pkgPass{Step: i, SpecHash: cur.GetSpecHash(nil), Gen: cur.ClientObject().GetGeneration(), Events: []pkgEvent{}, Conds: []pkgCond{}}
+				p.Spec = pkgSpec{Image: curSpec.Image, Component: curSpec.Component, Paused: curSpec.Paused}
+				if curSpec.Config != nil {
+					p.Spec.Config = append(json.RawMessage{}, curSpec.Config.Raw...)
 				}
 
 				store.ResetPass()
@@ -350,16 +471,17 @@ func init() {
 				}
 				p.Pulls = puller.pulls
 
-				after := &corev1alpha1.Package{}
-				if err := store.fromMap(store.RawGet(pkgKey), after); err != nil {
+				after := fl.newPkg(scheme)
+				if err := store.fromMap(store.RawGet(pkgKey), after.ClientObject()); err != nil {
 					return nil, err
 				}
-				p.UnpackedHash = after.Status.UnpackedHash
-				for _, cnd := range after.Status.Conditions {
+				_, afterStatus := pkgParts(after)
+				p.UnpackedHash = afterStatus.UnpackedHash
+				for _, cnd := range afterStatus.Conditions {
 					p.Conds = append(p.Conds, pkgCond{cnd.Type, string(cnd.Status), cnd.Reason, cnd.ObservedGeneration})
 				}
 				if m := store.RawGet(odKey); m != nil {
-					od := adapters.NewObjectDeployment(scheme)
+					od := fl.newOD(scheme)
 					if err := store.fromMap(m, od.ClientObject()); err != nil {
 						return nil, err
 					}
@@ -381,14 +503,15 @@ func init() {
 				}
 
 				// reference render of the current spec (no constraints, no API)
-				if img, ok := sc.Images[cur.Spec.Image]; !ok {
+				if img, ok := sc.Images[curSpec.Image]; !ok {
 					p.RefErr = "no-image"
 				} else {
-					rs := &renderScenario{Files: img.Files, Component: cur.Spec.Component, Config: p.Spec.Config, Environment: sc.Environment}
-					rs.Package.Name, rs.Package.Namespace = cur.Name, cur.Namespace
-					rs.Package.Labels, rs.Package.Annotations = cur.Labels, cur.Annotations
-					rs.Package.Image = cur.Spec.Image
-					g := renderOnce(ctx, rs)
+					rs := &renderScenario{Files: img.Files, Component: curSpec.Component, Config: p.Spec.Config, Environment: sc.Environment}
+					co := cur.ClientObject()
+					rs.Package.Name, rs.Package.Namespace = co.GetName(), co.GetNamespace()
+					rs.Package.Labels, rs.Package.Annotations = co.GetLabels(), co.GetAnnotations()
+					rs.Package.Image = curSpec.Image
+					g := refRender(ctx, rs, fl.cluster)
 					p.RefErr, p.RefHash = g.Err, g.Hash
 					if g.Err == "" {
 						var spec corev1alpha1.ObjectSetTemplateSpec
